@@ -5215,8 +5215,14 @@ impl<'a, 'graph> Builder<'a, 'graph> {
               content,
               specifier,
               mtime: _,
-              maybe_headers: _maybe_headers,
+              maybe_headers,
             } if specifier == item.specifier => {
+              // decode like the non-deferred path does
+              let (_, maybe_charset) =
+                resolve_media_type_and_charset_from_headers(
+                  &specifier,
+                  maybe_headers.as_ref(),
+                );
               // fill the existing module slot with the loaded source
               let slot = self.graph.module_slots.get_mut(&specifier).unwrap();
               match slot {
@@ -5232,7 +5238,7 @@ impl<'a, 'graph> Builder<'a, 'graph> {
                       match new_source_with_text(
                         &module.specifier,
                         content,
-                        None, // no charset for JSR
+                        maybe_charset,
                         None, // no mtime for JSR
                         item.maybe_range.as_ref(),
                       ) {
@@ -5246,7 +5252,7 @@ impl<'a, 'graph> Builder<'a, 'graph> {
                       match new_source_with_text(
                         &module.specifier,
                         content,
-                        None, // no charset for JSR
+                        maybe_charset,
                         None, // no mtime for JSR
                         item.maybe_range.as_ref(),
                       ) {
